@@ -40,7 +40,7 @@ func init() { register("C07", func() Case { return &C07Case{} }) }
 var c07Entries = []string{
 	"Unmarshal(interface{})", "Unmarshal(struct skip)", "Unmarshal(RawMessage)", "Unmarshal(ast.Node)+LoadAll", "Unmarshal([][][]int)", "Unmarshal(Tree)",
 	"std.Unmarshal(interface{})", "optdec.Unmarshal(interface{})", "Valid", "Get(path)+LoadAll", "NewRaw+LoadAll+Interface", "Preorder", "Loads", "decoder.Skip",
-	"StreamDecoder", "unquote.String", "Get()+SortKeys+MarshalJSON", "NewSearcher(no validate)",
+	"StreamDecoder", "unquote.String", "Get()+SortKeys+MarshalJSON", "NewSearcher(no validate)", "GetWithOptions()", "GetFromString()",
 }
 
 var c07GoKinds = []string{"pointer-cycle", "map-cycle", "slice-cycle", "deep-pointer-chain", "deep-slices", "deep-maps", "deep-struct-list", "chan-at-depth", "marshaler-panics?no:marshaler-error", "huge-string", "nan-deep"}
@@ -49,6 +49,12 @@ func (c *C07Case) input() []byte {
 	switch c.Kind {
 	case "raw", "doc":
 		return c.Data
+	case "prefix":
+		// the first N bytes of Data; the rest stays behind it in the same backing array
+		if c.N > len(c.Data) {
+			return c.Data
+		}
+		return c.Data[:c.N]
 	case "deep":
 		var b bytes.Buffer
 		b.Grow((len(c.Open)+len(c.Close))*c.N + len(c.Inner))
@@ -80,7 +86,14 @@ func drawC07(t *rapid.T) Case {
 	switch rapid.IntRange(0, 9).Draw(t, "kind") {
 	case 0, 1:
 		c.Kind, c.Data = "raw", gen.RawBytes(t, 200)
-	case 2, 3:
+	case 2:
+		c.Kind = "prefix"
+		c.Data = gen.ValidDoc(t, gen.DocOpt{Str: gen.StrOpt{LoneSurr: true}, Wide: true})
+		if rapid.Bool().Draw(t, "lit") {
+			c.Data = []byte([]string{"false", "true", "null", "[false,true]", `{"a":null}`, "-0.5", `"ab"`}[rapid.IntRange(0, 6).Draw(t, "littok")])
+		}
+		c.N = rapid.IntRange(0, len(c.Data)).Draw(t, "prefixlen")
+	case 3:
 		c.Kind = "doc"
 		c.Data = gen.ValidDoc(t, gen.DocOpt{Str: gen.Hostile, Wide: true, Num: gen.NumOpt{Huge: true}})
 		c.Data, _ = gen.Mutate(t, c.Data)
@@ -311,6 +324,18 @@ func (c *C07Case) Transcript() string {
 	case "unquote.String":
 		_, e := unquote.String(s)
 		return fmt.Sprint(int(e))
+	case "GetWithOptions()":
+		nd, err := sonic.GetWithOptions(in, ast.SearchOptions{ValidateJSON: true, ConcurrentRead: true})
+		if err == nil {
+			_, err = nd.Raw()
+		}
+		return errReport(err, n, "")
+	case "GetFromString()":
+		nd, err := sonic.GetFromString(bytesToString(in))
+		if err == nil {
+			_, err = nd.Interface()
+		}
+		return errReport(err, n, "")
 	case "Get()+SortKeys+MarshalJSON":
 		nd, err := sonic.Get(in)
 		if err == nil {
